@@ -170,6 +170,7 @@ class Ctx:
         b, h = self.b, self.h
         ev = NFEval(self.keys + ['v', 'rr', 'alpha'])
         ev.sample = self.sample()
+        ev.factor_symbolic = True
         if j is not None:
             pn = b.param_nodes[(self.oid, 'geometry')]
             ev.memo[pn.nid] = ev.num(j)
@@ -260,6 +261,17 @@ class Zero:
     def __call__(self, x):
         if not closed(x):
             return False
+        ev = self.ev
+        if isinstance(x, Sum):
+            # x == 0  <=>  x / m0 == 0 with m0 the parameter-dependent powers of the first term (a non-vanishing monomial)
+            m0 = {k: e for k, e in x.terms[0].f.items() if not ev._ground_exp(e)}
+            if m0:
+                inv0 = Mono(Fraction(1), {k: -e for k, e in m0.items()})
+                y = None
+                for t in x.terms:
+                    q = ev.mul(t, inv0)
+                    y = q if y is None else ev.add(y, q)
+                x = y
         try:
             cx = self.sy.conv(x)
             if is_zero(cx):
